@@ -1,7 +1,7 @@
 (* C12 - File name, stem and extension decompose the last component. *)
 From Coq Require Import List NArith Bool.
 Import ListNotations.
-From TP Require Import Core Path Unix Win Spec UnixProofs WinProofs.
+From TP Require Import Core Path Unix Win Spec UnixProofs WinProofs C11Proofs C12Proofs.
 
 (* file_name is the last component when it is a normal name, absent otherwise *)
 Theorem C12_unix_file_name : forall p : list N,
@@ -25,14 +25,38 @@ Proof. exact rsplit_reproduces. Qed.
 Print Assumptions C12_unix_file_name.
 Print Assumptions C12_windows_file_name.
 Print Assumptions C12_split_reproduces.
-(* C12_replace_partial: "replacing the file name by a single valid name n yields a path whose file
-   name is n and whose parent is the old parent, or the old path joined with n" is definitional
-   for the no-file-name case (set_file_name = push) and is checked by oracle_c12 on every explored
-   (path, name) pair; the re-parse of pop-then-push is not proved. *)
+(* the four documented cases of the split: "..", no dot, only a leading dot, otherwise the last dot *)
+Theorem C12_split_cases : forall n : list N,
+  rsplit_file_at_dot n =
+  if beq_list n [46; 46] then (Some n, None)
+  else match span_ndot (rev n) with
+       | (_, []) => (None, Some n)
+       | (_, [_]) => (Some n, None)
+       | (after_r, _ :: before_r) => (Some (rev before_r), Some (rev after_r))
+       end.
+Proof. exact rsplit_cases. Qed.
+(* replacing the file name by a single valid name n (gname n: non-empty, no separator, not "." or ".."):
+   Unix, all paths: the components are the old ones with the last replaced by n, so the file name is n
+   and the parent is the old parent; when there was no file name the result is the old path joined with n *)
+Theorem C12_unix_replace : forall l m n : list N, u_file_name l = Some m -> gname n ->
+  ucomps (u_set_file_name l n) = removelast (ucomps l) ++ [Normal n].
+Proof. exact u_set_file_name_some. Qed.
+Theorem C12_unix_replace_file_name : forall l m n : list N, u_file_name l = Some m -> gname n ->
+  u_file_name (u_set_file_name l n) = Some n.
+Proof. exact u_set_file_name_file_name. Qed.
+Theorem C12_unix_replace_parent : forall l m n r r' : list N, u_file_name l = Some m -> gname n ->
+  u_parent l = Some r -> u_parent (u_set_file_name l n) = Some r' -> ucomps r' = ucomps r.
+Proof. exact u_set_file_name_parent. Qed.
 Theorem C12_unix_no_file_name_is_join : forall p n : list N,
   u_file_name p = None -> u_set_file_name p n = u_push p n.
-Proof. intros p n H. unfold u_set_file_name, set_file_name. fold u_file_name. rewrite H. reflexivity. Qed.
+Proof. exact u_set_file_name_none. Qed.
+Print Assumptions C12_split_cases.
+Print Assumptions C12_unix_replace.
+Print Assumptions C12_unix_replace_file_name.
+Print Assumptions C12_unix_replace_parent.
 Print Assumptions C12_unix_no_file_name_is_join.
+(* C12_windows_replace_partial: the Windows replacement (pop, then the Windows push) is decided by
+   oracle_c12 on every explored (path, name) pair. *)
 
 Example C12_example : u_file_stem [47;97;46;116;97;114;46;103;122;47] = Some [97;46;116;97;114]
                       /\ u_extension [47;97;46;116;97;114;46;103;122;47] = Some [103;122]
